@@ -73,10 +73,16 @@ def main():
             caught = any(x["exit"] == 1 for x in entry["checks"].values())
             entry["caught"] = caught
             results[sid] = entry
-            print(sid, meta["property"], "CAUGHT" if caught else "MISSED", {k: (v["exit"], "concrete" if v["concrete"] else "") for k, v in entry["checks"].items()})
+            print(sid, meta["property"], "CAUGHT" if caught else "MISSED", {k: (v["exit"], "concrete" if v["concrete"] else "") for k, v in entry["checks"].items()}, flush=True)
+            # merge into the results file at once (several runners may work on disjoint id sets)
+            import fcntl
+            with open(str(resf) + ".lock", "w") as lk:
+                fcntl.flock(lk, fcntl.LOCK_EX)
+                cur = json.loads(resf.read_text()) if resf.exists() else {}
+                cur[sid] = entry
+                resf.write_text(json.dumps(cur, indent=1, sort_keys=True) + "\n")
         finally:
             sh(f"git -C /repo worktree remove --force {wt}")
-    resf.write_text(json.dumps(results, indent=1, sort_keys=True) + "\n")
     # restore Gen for the real tree
     sh(f"/venv/bin/python {V}/harness/translate.py")
 
